@@ -264,6 +264,134 @@ def covariance_oracle(base, rot, Q, tol=1e-8):
     return out
 
 
+# ---------------------------------------------------------------- object-reuse histories
+def expansion_bundle(vs, ss):
+    """Everything a VectorStarSet computes for the star set `ss`, as a dict of arrays (networks taken from `ss`)."""
+    d = {}
+    d['Nvstars'] = np.array([vs.Nvstars])
+    d['vecpos'] = np.array([x for p in vs.vecpos for x in p] + [-1] + [len(p) for p in vs.vecpos], dtype=float)
+    d['vecvec'] = np.array([list(v) for vv in vs.vecvec for v in vv], dtype=float).reshape(-1, ss.crys.dim)
+    d['outer'] = np.asarray(vs.outer)
+    gf = vs.GFexpansion()
+    if gf is not None:
+        d['GFexpansion'] = np.asarray(gf[0])
+        gss = gf[1]
+        d['GFstarset'] = np.array([[PS.i, PS.j] + list(PS.R) + [gss.index[n]] for n, PS in enumerate(gss.states)], dtype=float)
+    for label, (jn, jt, sp_), om2 in (('om1', ss.jumpnetwork_omega1(), False), ('om2', ss.jumpnetwork_omega2(), True)):
+        if len(jn) == 0: continue      # (zeroclean cannot iterate zero-sized arrays; one-shell star sets only)
+        r = vs.rateexpansions(jn, jt, omega2=om2)
+        for k, a in zip(('rate0expansion', 'rate0escape', 'rate1expansion', 'rate1escape'), r): d[label + ':' + k] = np.asarray(a)
+        b = vs.biasexpansions(jn, jt, omega2=om2)
+        d[label + ':bias0expansion'], d[label + ':bias1expansion'] = np.asarray(b[0]), np.asarray(b[1])
+        D = vs.bareexpansions(jn, jt)
+        d[label + ':D0expansion'], d[label + ':D1expansion'] = np.asarray(D[0]), np.asarray(D[1])
+    for et in ('solute', 'vacancy'):
+        osi, fold, vb = vs.originstateVectorBasisfolddown(et)
+        d['fold:%s:OSindices' % et] = np.array(list(osi), dtype=float)
+        d['fold:%s:folddown' % et], d['fold:%s:OS_VB' % et] = np.asarray(fold), np.asarray(vb)
+    return d
+
+
+def compare_bundles(out, prefix, reused, fresh, context):
+    """A reused object must give exactly what a freshly constructed one gives: same shapes, same values."""
+    for k in sorted(set(reused) | set(fresh)):
+        if k not in reused or k not in fresh:
+            out.append(('%s:%s:missing' % (prefix, k), '%s: %s present only in the %s object' % (context, k, 'fresh' if k in fresh else 'reused'), {}))
+            continue
+        a, b = reused[k], fresh[k]
+        if a.shape != b.shape:
+            out.append(('%s:%s:shape' % (prefix, k), '%s: %s has shape %s on the reused object, %s on a fresh one' % (context, k, a.shape, b.shape),
+                        dict(reused_shape=list(a.shape), fresh_shape=list(b.shape))))
+        elif a.size and not np.allclose(a, b, rtol=0., atol=1e-12):
+            dev = np.abs(a - b); idx = np.unravel_index(np.argmax(dev), dev.shape)
+            out.append(('%s:%s:value' % (prefix, k), '%s: %s[%s] = %.12g on the reused object, %.12g on a fresh one (%d entries differ)'
+                        % (context, k, list(map(int, idx)), a[idx], b[idx], int((dev > 1e-12).sum())),
+                        dict(index=list(map(int, idx)), reused=float(a[idx]), fresh=float(b[idx]))))
+
+
+def parameter_variant(crys, chem, eps):
+    """The same structure with one crystal parameter changed by eps: an internal coordinate when the tracked species has
+    several sites (topology unchanged), otherwise the length of the last lattice vector."""
+    from onsager import crystal
+    basis = [[np.array(u, dtype=float) for u in atoms] for atoms in crys.basis]
+    latt = np.array(crys.lattice, dtype=float)
+    if len(basis[chem]) > 1:
+        basis[chem][-1][-1] += eps
+    else:
+        latt[:, -1] *= (1. + eps)
+    return crystal.Crystal(latt, basis, chemistry=crys.chemistry)
+
+
+def starset(crys, chem, cutoff, nshells):
+    from onsager import crystalStars as stars
+    return stars.StarSet(crys.jumpnetwork(chem, cutoff), crys, chem, nshells, originstates=True)
+
+
+def reuse_oracles(crysA, crysB, chem, cutoff, nA, nB):
+    """One VectorStarSet object used for star set A (all expansions computed), then for star set B: the results for B
+    must equal those of a freshly constructed object.  A and B differ in the number of shells and/or in a crystal
+    parameter.  Also the same history with ONE StarSet object regenerated in place (what VacancyMediated.generate does)."""
+    from onsager import crystalStars as stars
+    out = []
+    ssA, ssB = starset(crysA, chem, cutoff, nA), starset(crysB, chem, cutoff, nB)
+    fresh = expansion_bundle(stars.VectorStarSet(ssB), ssB)
+    ctxt = 'generate(A: %d shells); expansions; generate(B: %d shells%s); expansions' % (nA, nB, '' if crysA is crysB else ', other crystal parameter')
+    vs = stars.VectorStarSet()
+    vs.generate(ssA)
+    bA = expansion_bundle(vs, ssA)
+    compare_bundles(out, 'reuse:first-use', bA, expansion_bundle(stars.VectorStarSet(ssA), ssA), 'empty object, generate(A)')
+    vs.generate(ssB)
+    compare_bundles(out, 'reuse:vectorstarset', expansion_bundle(vs, ssB), fresh, ctxt)
+    # calling the expansions twice on the same object must not change them either
+    compare_bundles(out, 'reuse:second-call', expansion_bundle(vs, ssB), fresh, ctxt + '; expansions again')
+    if crysA is crysB and nA != nB:
+        ss = starset(crysA, chem, cutoff, nA)
+        vs2 = stars.VectorStarSet(ss)
+        expansion_bundle(vs2, ss)
+        ss.generate(nB, originstates=True)          # the same StarSet object, regenerated in place
+        vs2.generate(ss)
+        if vs2.Nvstars != int(fresh['Nvstars'][0]) or [list(p) for p in vs2.vecpos] != [list(p) for p in stars.VectorStarSet(ssB).vecpos]:
+            out.append(('reuse:inplace-starset:stale-vectorstars',
+                        'StarSet regenerated in place from %d to %d shells, then VectorStarSet.generate(same object): %d vector stars kept, a fresh object has %d'
+                        % (nA, nB, vs2.Nvstars, int(fresh['Nvstars'][0])), dict(nA=nA, nB=nB, reused=vs2.Nvstars, fresh=int(fresh['Nvstars'][0]))))
+        else:
+            compare_bundles(out, 'reuse:inplace-starset', expansion_bundle(vs2, ss), fresh, 'StarSet regenerated in place, ' + ctxt)
+    return out
+
+
+CALC_ARRAYS = ('GFexpansion', 'om1expansion', 'om1escape', 'om1_om0', 'om1_om0escape', 'om1bias', 'om1_b0', 'Dom1', 'Dom1_om0',
+               'om2expansion', 'om2escape', 'om2_om0', 'om2_om0escape', 'om2bias', 'om2_b0', 'Dom2', 'Dom2_om0',
+               'OSfolddown', 'OSVfolddown', 'OS_VB')
+
+
+def calculator_reuse_oracles(crys, chem, cutoff, nA, nB, nrng):
+    """VacancyMediated.generate(nB); generatematrices() on a calculator built for nA, against a fresh calculator for nB,
+    and the direct oracles on the reused calculator."""
+    out = []
+    c = light_calculator(crys, chem, cutoff, nA)
+    raised = None
+    try:
+        c.generate(nB); c.generatematrices()
+    except Exception as e:
+        raised = repr(e)[:200]
+    f = light_calculator(crys, chem, cutoff, nB)
+    ctxt = 'calculator for Nthermo=%d, then generate(%d); generatematrices()' % (nA, nB) + (' [raised %s]' % raised if raised else '')
+    if c.vkinetic.Nvstars != f.vkinetic.Nvstars or [list(p) for p in c.vkinetic.vecpos] != [list(p) for p in f.vkinetic.vecpos]:
+        out.append(('reuse:calculator:stale-vectorstars',
+                    '%s: vkinetic keeps %d vector stars (kinetic has %d states), a fresh calculator has %d'
+                    % (ctxt, c.vkinetic.Nvstars, c.kinetic.Nstates, f.vkinetic.Nvstars),
+                    dict(nA=nA, nB=nB, reused=c.vkinetic.Nvstars, fresh=f.vkinetic.Nvstars, states=c.kinetic.Nstates)))
+        return out
+    if raised:
+        out.append(('reuse:calculator:raises', ctxt, dict(nA=nA, nB=nB, error=raised)))
+        return out
+    compare_bundles(out, 'reuse:calculator', {k: np.asarray(getattr(c, k)) for k in CALC_ARRAYS},
+                    {k: np.asarray(getattr(f, k)) for k in CALC_ARRAYS}, ctxt)
+    for sig, what, d in vector_star_oracles(c.kinetic, c.vkinetic) + projection_oracles(c, nrng):
+        out.append(('reuse:calculator:' + sig, ctxt + ': ' + what, d))
+    return out
+
+
 # ---------------------------------------------------------------- (2) direct assembly + projection
 def _cmp(out, sig, what, code, direct, tol, extra=None, osrows=None, nterms=1):
     """osrows: indices of origin-state vector stars; when every differing entry lies on such a row (diagonal entry
